@@ -657,8 +657,17 @@ def oracle_case(c, obs):
 # running
 # ---------------------------------------------------------------------------------------------
 def _shard(args):
-    binary, cases = args
-    obs = common.run_driver(binary, cases, args="-test.run ^TestDriver$", shards=1)
+    """one worker: drive its share of the cases in small batches (bounded memory, bounded time per driver process), run the
+    oracle on every observation and keep only digests, statistics and violations"""
+    binary, allcases = args
+    out = []
+    for b in range(0, len(allcases), 24):
+        out += _batch(binary, allcases[b:b + 24])
+    return out
+
+
+def _batch(binary, cases):
+    obs = common.run_driver(binary, cases, args="-test.run ^TestDriver$", shards=1, timeout=7200)
     out = []
     for c, o in zip(cases, obs):
         if o.get("err") or len(o.get("codes", [])) != len(c["ops"]):
